@@ -846,6 +846,200 @@ Proof.
   unfold idle1 in H. destruct (bp (run sched init)); lia.
 Qed.
 
+(* exact count: from a state in which the batching loop is idle with room in the channel, or
+   already holds a message *)
+Definition stall_pre (s : st) : Prop :=
+  closed s = false /\
+  ((bp s = BIdle /\ (length (chan s) < N.to_nat ew_chan_cap)%nat) \/
+   ((exists m, bp s = BHold m) /\ (length (chan s) <= N.to_nat ew_chan_cap)%nat)).
+
+Lemma stalled_step_acc p e s :
+  supported e = true -> closed s = false -> publish_enabled s = true ->
+  let s2 := run (took p e s) (step (LPub p e) s) in
+  closed s2 = false /\
+  (bp s = BIdle -> (exists m, bp s2 = BHold m) /\ length (chan s2) = length (chan s)) /\
+  (forall m, bp s = BHold m -> bp s2 = BHold m /\ length (chan s2) = S (length (chan s))).
+Proof.
+  destruct s as [ch cl bf wk dn rl g b w c dl ac pn]. unfold took, supported, publish_enabled.
+  cbn [step closed chan bp]. unfold step_pub. rewrite pub_sync_true.
+  destruct (key_of e) as [k|]; [|discriminate]. intros _ -> El. cbn [negb andb] in El. rewrite El.
+  cbn [bp chan].
+  destruct b; cbn [run fold_left closed bp chan]; (split; [try reflexivity|split; [intro Hb; try discriminate Hb|intros m0 Hb; try discriminate Hb]]).
+  - destruct ch as [|x r]; reflexivity.
+  - destruct ch as [|x r]; cbn [app step step_B run fold_left bp chan length].
+    + split; [eexists; reflexivity|reflexivity].
+    + split; [eexists; reflexivity|]. rewrite app_length. cbn [length]. lia.
+  - injection Hb as <-. split; [reflexivity|]. rewrite app_length. cbn [length]. lia.
+Qed.
+
+Lemma pe_room s : closed s = false ->
+  (publish_enabled s = true -> (length (chan s) < N.to_nat ew_chan_cap)%nat) /\
+  (publish_enabled s = false -> (N.to_nat ew_chan_cap <= length (chan s))%nat).
+Proof.
+  unfold publish_enabled. intros ->. cbn [negb andb]. unfold Nlen. split; intro H.
+  - apply N.ltb_lt in H. lia.
+  - apply N.ltb_ge in H. lia.
+Qed.
+
+Lemma stalled_exact l : forall s,
+  stall_pre s -> forallb (fun pe => supported (snd pe)) l = true ->
+  N.to_nat (stalled_returns l s) =
+  Nat.min (length l) (N.to_nat ew_chan_cap - length (chan s) + idle1 (bp s)).
+Proof.
+  unfold stalled_returns. induction l as [|pe r IH]; intros s [Hcl Hpre] Hsup.
+  - cbn [stalled snd length]. change (N.to_nat 0) with 0%nat. reflexivity.
+  - cbn [forallb] in Hsup. apply andb_true_iff in Hsup. destruct Hsup as [Hs Hr].
+    destruct (pe_room s Hcl) as [Hroom Hfull].
+    cbn [stalled]. rewrite Hs, Hcl. cbn [negb andb].
+    destruct (publish_enabled s) eqn:Epe; cbn [negb].
+    + destruct (stalled_step_acc (fst pe) (snd pe) s Hs Hcl Epe) as (Hc2 & HI & HH).
+      unfold took in Hc2, HI, HH. unfold pub_label. specialize (Hroom eq_refl).
+      match goal with |- context [stalled r ?s2] => assert (P2 : stall_pre s2) end.
+      { split; [exact Hc2|]. destruct Hpre as [[Hb Hlt] | [[m Hb] Hle]].
+        - destruct (HI Hb) as [Hb2 Hlen]. right. split; [exact Hb2|lia].
+        - destruct (HH m Hb) as [Hb2 Hlen]. right. split; [exists m; exact Hb2|lia]. }
+      specialize (IH _ P2 Hr).
+      destruct Hpre as [[Hb Hlt] | [[m Hb] Hle]].
+      * destruct (HI Hb) as [[m' Hb2] Hlen]. rewrite Hb2, Hlen in IH. rewrite Hb.
+        destruct (stalled r _) as [[ls rest] n]. cbn [snd idle1 length] in *.
+        rewrite N2Nat.inj_add. change (N.to_nat 1) with 1%nat. lia.
+      * destruct (HH m Hb) as [Hb2 Hlen]. rewrite Hb2, Hlen in IH. rewrite Hb.
+        destruct (stalled r _) as [[ls rest] n]. cbn [snd idle1 length] in *.
+        rewrite N2Nat.inj_add. change (N.to_nat 1) with 1%nat. lia.
+    + specialize (Hfull eq_refl). cbn [snd length]. change (N.to_nat 0) with 0%nat.
+      destruct Hpre as [[Hb Hlt] | [[m Hb] Hle]]; [lia|]. rewrite Hb. cbn [idle1]. lia.
+Qed.
+
+(* ---------- every publication of an OFull operation is accepted, in the listed order ---------- *)
+Lemma run_cons l ls s : run (l :: ls) s = run ls (step l s).
+Proof. reflexivity. Qed.
+
+Lemma run_inv ls : forall s, Inv s -> Inv (run ls s).
+Proof.
+  induction ls as [|l ls IH]; intros s I; [exact I|]. rewrite run_cons. apply IH, step_inv, I.
+Qed.
+
+Lemma LB_keeps s : closed (step LB s) = closed s /\ accepted (step LB s) = accepted s.
+Proof.
+  destruct s as [ch cl bf wk dn rl g b w c dl ac pn]. cbn [step]. unfold step_B.
+  destruct b; try (split; reflexivity). destruct ch; [destruct cl|]; split; reflexivity.
+Qed.
+
+Lemma took_keeps p e s :
+  let s1 := step (LPub p e) s in
+  closed (run (took p e s) s1) = closed s1 /\ accepted (run (took p e s) s1) = accepted s1.
+Proof.
+  cbn zeta. unfold took. destruct (bp (step (LPub p e) s)); try (split; reflexivity).
+  destruct (chan (step (LPub p e) s)); [split; reflexivity|]. rewrite run_cons. apply LB_keeps.
+Qed.
+
+Lemma pub_accepts p e s :
+  supported e = true -> closed s = false -> publish_enabled s = true ->
+  accepted (step (LPub p e) s) = accepted s ++ [msg_of_pub (p, e)] /\
+  closed (step (LPub p e) s) = false.
+Proof.
+  destruct s as [ch cl bf wk dn rl g b w c dl ac pn]. unfold supported, publish_enabled, msg_of_pub.
+  cbn [step closed chan accepted fst snd]. unfold step_pub.
+  destruct (key_of e) as [k|]; [|discriminate]. intros _ -> El. cbn [negb andb] in El. rewrite El.
+  split; reflexivity.
+Qed.
+
+Lemma stalled_accepts l : forall s,
+  closed s = false -> forallb (fun pe => supported (snd pe)) l = true ->
+  exists acc,
+    l = acc ++ snd (fst (stalled l s)) /\
+    accepted (run (fst (fst (stalled l s))) s) = accepted s ++ map msg_of_pub acc /\
+    closed (run (fst (fst (stalled l s))) s) = false.
+Proof.
+  induction l as [|pe r IH]; intros s Hcl Hsup.
+  - exists []. cbn. rewrite app_nil_r. auto.
+  - cbn [forallb] in Hsup. apply andb_true_iff in Hsup. destruct Hsup as [Hs Hr].
+    cbn [stalled]. rewrite Hs, Hcl. cbn [negb andb].
+    destruct (publish_enabled s) eqn:Epe; cbn [negb].
+    + destruct (pub_accepts (fst pe) (snd pe) s Hs Hcl Epe) as [Ha Hc].
+      destruct (took_keeps (fst pe) (snd pe) s) as [Kc Ka]. unfold took in Kc, Ka. unfold pub_label.
+      rewrite Hc in Kc. rewrite Ha in Ka.
+      destruct (IH _ Kc Hr) as (acc & El & Eacc & Ecl).
+      destruct (stalled r _) as [[ls rest] n]. cbn [fst snd] in *.
+      exists (pe :: acc). rewrite run_cons, run_app.
+      split; [cbn [app]; congruence|]. split; [|exact Ecl].
+      rewrite Eacc, Ka. cbn [map]. rewrite <- app_assoc. destruct pe; reflexivity.
+    + exists []. cbn [fst snd app map run fold_left]. rewrite app_nil_r. auto.
+Qed.
+
+Lemma make_room_ok s :
+  Inv s -> closed s = false ->
+  let s' := run (make_room s) s in
+  publish_enabled s' = true /\ accepted s' = accepted s /\ closed s' = false.
+Proof.
+  intros I Hcl. pose proof (i_cap _ I) as Hcap. pose proof (i_blate _ I) as Hbl.
+  pose proof chan_cap_pos as Hpos.
+  destruct s as [ch cl bf wk dn rl g b w c dl ac pn]. cbn [closed chan bp] in *. subst cl.
+  unfold make_room, publish_enabled. cbn [closed chan negb andb orb].
+  destruct (Nlen ch <? ew_chan_cap) eqn:El; cbn [orb].
+  - cbn. rewrite El. auto.
+  - apply N.ltb_ge in El. unfold Nlen in El.
+    destruct ch as [|m r]; [cbn in El; lia|]. cbn [length] in *.
+    assert (Hr : (Nlen r <? ew_chan_cap) = true) by (apply N.ltb_lt; unfold Nlen; lia).
+    assert (Hf : (Nlen (m :: r) <? ew_chan_cap) = false) by (apply N.ltb_ge; unfold Nlen; cbn [length]; lia).
+    destruct b as [|m0| | | |]; try (destruct (Hbl eq_refl) as [_ F]; discriminate).
+    + cbn [step step_B closed chan negb andb]. rewrite Hr. cbn. rewrite Hr. auto.
+    + cbn [step step_B closed chan negb andb]. rewrite Hf. cbn. rewrite Hr. auto.
+Qed.
+
+Lemma resumed_accepts l : forall s,
+  Inv s -> closed s = false -> forallb (fun pe => supported (snd pe)) l = true ->
+  accepted (run (resumed l s) s) = accepted s ++ map msg_of_pub l /\
+  closed (run (resumed l s) s) = false.
+Proof.
+  induction l as [|pe r IH]; intros s I Hcl Hsup.
+  - cbn. rewrite app_nil_r. auto.
+  - cbn [forallb] in Hsup. apply andb_true_iff in Hsup. destruct Hsup as [Hs Hr].
+    cbn [resumed]. rewrite Hs. rewrite run_app.
+    destruct (make_room_ok s I Hcl) as (He & Ha & Hc).
+    assert (I1 : Inv (run (make_room s) s)) by (apply run_inv, I).
+    rewrite (run_app (make_room s) [pub_label pe]). unfold pub_label at 1 2 3 4. cbn [run fold_left] in *.
+    fold (run (make_room s) s) in *.
+    destruct (pub_accepts (fst pe) (snd pe) _ Hs Hc He) as [Ha2 Hc2].
+    destruct (IH _ (step_inv _ _ I1) Hc2 Hr) as [A B].
+    split; [|exact B]. rewrite A, Ha2, Ha. cbn [map]. rewrite <- app_assoc. destruct pe; reflexivity.
+Qed.
+
+Lemma full_accepts_all sched l :
+  let s := run sched init in
+  closed s = false -> forallb (fun pe => supported (snd pe)) l = true ->
+  let s' := run (full_labels l s) s in
+  accepted s' = accepted s ++ map msg_of_pub l /\ closed s' = false.
+Proof.
+  cbn zeta. intros Hcl Hsup. unfold full_labels.
+  destruct (stalled_accepts l _ Hcl Hsup) as (acc & El & Ea & Ec).
+  destruct (stalled l (run sched init)) as [[ls rest] n]. cbn [fst snd] in *.
+  assert (Hrest : forallb (fun pe => supported (snd pe)) rest = true).
+  { rewrite El in Hsup. rewrite forallb_app in Hsup. apply andb_true_iff in Hsup. tauto. }
+  rewrite run_app.
+  destruct (resumed_accepts rest _ (run_inv ls _ (inv_reach sched)) Ec Hrest) as [A B].
+  split; [|exact B]. rewrite A, Ea, El, map_app, app_assoc. reflexivity.
+Qed.
+
+Lemma stalled_returns_closed_form sched l :
+  let s := run sched init in
+  full_pre_ok s = true -> forallb (fun pe => supported (snd pe)) l = true ->
+  stalled_returns l s = full_returns l.
+Proof.
+  cbn zeta. intros Hpre Hsup. unfold full_pre_ok in Hpre.
+  destruct (chan (run sched init)) eqn:Ech; [|discriminate].
+  destruct (bp (run sched init)) eqn:Eb; try discriminate.
+  apply negb_true_iff in Hpre. pose proof chan_cap_pos as Hpos.
+  assert (P : stall_pre (run sched init)).
+  { split; [exact Hpre|]. left. split; [exact Eb|]. rewrite Ech. cbn [length]. lia. }
+  pose proof (stalled_exact l _ P Hsup) as H. rewrite Ech, Eb in H. cbn [length idle1] in H.
+  apply N2Nat.inj. rewrite H. unfold full_returns, Nlen.
+  rewrite N2Nat.inj_min, Nat2N.id, N2Nat.inj_add. change (N.to_nat 1) with 1%nat. lia.
+Qed.
+
+Lemma coarse_end_is_state ops s : coarse_end ops s = coarse_state ops s.
+Proof. reflexivity. Qed.
+
 Lemma constants_fit_model :
   ew_done_cap = 1 /\ ew_drain_on_done = true /\ ew_release_sticky = true /\
   (forall d, (1 <= pop_max d <= 100)%nat) /\ (1 <= N.to_nat ew_chan_cap)%nat.
